@@ -24,7 +24,7 @@ HARNESSES = [
     {"fn": "h_osrc_seq", "cases": ["BC-BD", "BD-BC", "BD-BD"], "timeout": {"quick": 90, "thorough": 300}},
     {"fn": "h_m2c00", "cases": ["route", "empty"], "timeout": {"quick": 90, "thorough": 300}},
     {"fn": "h_contain", "cases": ["ud:%d" % b for b in (2, 3, 4, 5, 6, 7)] + ["src:%d" % b for b in (2, 3, 4, 5, 6, 8)] + ["callout:%d" % b for b in (2, 4, 6)],
-     "quick_cases": ["ud:4", "ud:6", "ud:7", "src:2", "src:4", "callout:4"], "timeout": {"quick": 120, "thorough": 400}},
+     "quick_cases": ["ud:4", "ud:6", "ud:7", "src:2", "src:4", "src:5", "callout:4"], "timeout": {"quick": 120, "thorough": 400}},
     {"fn": "h_disabled", "cases": ["", "main:f", "main:a", "main:i", "main:l", "main:j"], "timeout": {"quick": 90, "thorough": 300}},
 ]
 BOUNDS = {"names": "creator letter (either case) and 16-bit component id symbolic", "src arguments": "each hex word symbolic in turn "
@@ -362,12 +362,12 @@ def h_disabled() -> bool:
     cfg.allow_plugins = False
     co = pb.callouts_subsection([pb.callout(loc=b"Ufcs-P1\0", fru=pb.fru_identity(0x42, pn=b"BMC0001"))])
     pel = pb.PEL(pb.SRC(flags=1, callouts=co), pb.UD(b"\x01\x02\x03", comp=0x0777), pb.ED(b"\x06\x07", creator=cr, comp=0x0888),
-                 pb.UD(b"\x01", comp=0xE500), ph=dict(creator=cr))
+                 pb.UD(b"\x01", comp=0xE500), pb.UD(b"\x05\x06", sub=4, comp=0x2000), ph=dict(creator=cr))
     if CASE.startswith("main"):
         # the real command line path: -P together with every way of naming what to decode
         mode = CASE.split(":")[1]
         pel = pb.PEL(pb.SRC(flags=1, callouts=co), pb.UD(b"\x01\x02\x03", comp=0x0777), pb.ED(b"\x06\x07", creator=cr, comp=0x0888),
-                     pb.UD(b"\x01", comp=0xE500), ph=dict(creator=cr, eid=0x50000001), uh=dict(sev=0x40, flags=0x8000))
+                     pb.UD(b"\x01", comp=0xE500), pb.UD(b"\x05\x06", sub=4, comp=0x2000), ph=dict(creator=cr, eid=0x50000001), uh=dict(sev=0x40, flags=0x8000))
         w = World(files=[("a_50000001", pel)], dirs=["/out"])
         opts = {"f": dict(file="/pels/a_50000001"), "a": dict(path="/pels", all=True), "i": dict(path="/pels", pelID="0x50000001"),
                 "l": dict(path="/pels", list=True), "j": dict(path="/pels", json=True, output_dir="/out")}[mode]
